@@ -646,6 +646,19 @@ inline void planClear(TPlan plan, Inst& in, const char* where) {
 template <typename TC>
 inline void doPlanEdit(TC& c, Inst& in, const char* where) {
 	World& w = *W;
+	// a read-only view obtained BEFORE the edit is a view of the plan, not a snapshot of it: it is looked at again afterwards
+	const TC& constControl = c;
+	auto viewBefore = constControl.plan();
+	struct ViewCheck {
+		decltype(viewBefore)& view; Inst& in; const char* where;
+		~ViewCheck() {
+			bool cons = true;
+			const PlanVec v = readPlan(view, &cons);
+			if (!samePlan(v, in.plan) || !cons)
+				W->V("C10", "read-only-view-obtained-before-an-edit-is-stale", fmt("%s: a CPlan obtained before the edit iterates as %s (first/last/bool consistent: %d), the plan is %s; %s", where, planStr(v).c_str(), int(cons), planStr(in.plan).c_str(), W->tail().c_str()));
+			W->stats.add("plan_views_rechecked_after_edit");
+		}
+	} viewCheck{viewBefore, in, where};
 	const uint32_t k = w.ch.pick({6, 2, in.plan.empty() ? 0u : 3u, 1});
 	if (k == 0 || k == 1) {
 		// bias origins towards the active state and towards 0
@@ -733,10 +746,27 @@ inline void userCode(TC& c, Inst& in, Method m, uint8_t sid) {
 // ---------------------------------------------------------------------------
 // the hub every callback goes through
 
+template <unsigned I> inline const uint64_t* memAddrOf(const cfg::Br<I>&) { return nullptr; }
+template <unsigned I> inline const uint64_t* memAddrOf(const cfg::St<I>& st) { return &st.mem; }
+#if CFG_HEAD
+inline const uint64_t* rootMemAddr(const cfg::Instance& m) { return &m.template access<cfg::Rt>().mem; }
+#else
+inline const uint64_t* rootMemAddr(const cfg::Instance&) { return nullptr; }
+#endif
+
 template <Flv F, typename TC>
 inline void hub(TC& c, Method m, uint8_t sid, uint8_t inj, uint64_t* mem, const void* ev) {
 	World& w = *W;
 	UserScope us(w);
+	// C14: the callback runs on the very object access<TState>() returns (the data member handed in lives in it)
+	if (mem && !w.probe && !w.inSnapshotCopy && w.cur && w.cur->obj && inj == 0 && !cfg::BARE) {
+		const uint64_t* expected = nullptr;
+		if (sid == ROOT) { if (cfg::HEAD) expected = rootMemAddr(*w.cur->obj); }
+		else if (sid < N) FOR_STATE(sid, T, expected = memAddrOf(w.cur->obj->template access<T>()));
+		if (expected && expected != mem)
+			w.V("C14", fmt("callback-ran-on-another-object-than-access<T>()|%s", mname(m)), fmt("%s of %s ran on an object at %p, access<T>() names the object at %p; %s", mname(m), sid == ROOT ? "the root head" : fmt("state %u", sid).c_str(), static_cast<const void*>(mem), static_cast<const void*>(expected), w.tail().c_str()));
+		else if (expected) w.stats.add("callback_object_identity_checked");
+	}
 	// data kept in the state object itself: a running digest of the callbacks it received (C17: copies carry it along)
 	if (mem && !w.probe) *mem = vh::mix(*mem, (static_cast<uint64_t>(m) << 8) | inj);
 	if (w.inSnapshotCopy) {
